@@ -267,6 +267,14 @@ func (fc *FuncCtx) evalBuiltin(st *State, name string, call *ast.CallExpr) Val {
 		st.env[tmp] = Val{T: fc.zeroVal(t, "new"), Typ: t}
 		return Val{Loc: &Loc{Kind: "local", Obj: tmp, Sort: fc.sortOf(t), Typ: t}, Typ: resT}
 	case "append":
+		if id, ok := ast.Unparen(call.Args[0]).(*ast.Ident); ok && len(call.Args) > 1 {
+			if src, shared := fc.sliceCopies[fc.info.ObjectOf(id)]; shared {
+				// x := y (inside a loop, y from outside) ; append(x, ...): when y has spare capacity every iteration
+				// writes into the same backing array. The value-semantic slice model cannot express that, so the
+				// function leaves the modelled subset instead of being verified against a wrong model.
+				fc.fail(call.Pos(), "append to %s, a slice header copied in a loop from %s declared outside the loop: the appended data may alias across iterations (shared backing array; not expressible in the value-semantic slice model)", id.Name, src.Name())
+			}
+		}
 		s := fc.evalExpr(st, call.Args[0])
 		cur := s.T
 		if call.Ellipsis.IsValid() && len(call.Args) == 2 {
